@@ -116,13 +116,6 @@ def dump(pkg, log=None):
     out = os.path.join(WORK, "mir", f"{pkg}.{key}.mir")
     if os.path.exists(out) and os.path.getsize(out) > 1000:
         return out
-    # drop stale dumps of this package
-    for fn in os.listdir(os.path.join(WORK, "mir")):
-        if fn.startswith(pkg + ".") and fn.endswith(".mir"):
-            try:
-                os.remove(os.path.join(WORK, "mir", fn))
-            except OSError:
-                pass
     env = dict(os.environ)
     env["RUSTC_BOOTSTRAP"] = "1"
     env["CARGO_NET_OFFLINE"] = "true"
@@ -141,6 +134,13 @@ def dump(pkg, log=None):
     tmp = out + ".tmp"
     open(tmp, "w").write(p.stdout)
     os.replace(tmp, out)
+    # drop stale dumps of this package (only after the new one exists)
+    for fn in os.listdir(os.path.join(WORK, "mir")):
+        if fn.startswith(pkg + ".") and fn.endswith(".mir") and fn != os.path.basename(out):
+            try:
+                os.remove(os.path.join(WORK, "mir", fn))
+            except OSError:
+                pass
     if log is not None:
         log.append((pkg, round(time.time() - t0, 1)))
     return out
